@@ -2,7 +2,7 @@
 import torch
 from hypothesis import strategies as st
 
-from .. import sdes, solve
+from .. import brownian_tools, sdes, solve
 from ..core import Fail, Result
 
 ID = "C13"
@@ -36,8 +36,42 @@ def _case(draw, tier):
             "chain_via_adjoint": draw(st.sampled_from([False, False, False, True]))}
 
 
+class MixedSDE(torch.nn.Module):
+    """Element-wise diagonal SDE whose coefficient tensors are float64 while the initial state (and the Brownian motion) is
+    float32: after the first step the running state is float64. The library accepts this and returns float64 outputs."""
+
+    def __init__(self, sde_type, d, seed):
+        super().__init__()
+        self.noise_type, self.sde_type = "diagonal", sde_type
+        g = torch.Generator().manual_seed(seed)
+        self.a = torch.nn.Parameter(torch.randn(d, generator=g, dtype=torch.float64))
+        self.b = torch.nn.Parameter(torch.randn(d, generator=g, dtype=torch.float64))
+        self.c = torch.nn.Parameter(0.4 + torch.rand(d, generator=g, dtype=torch.float64))
+
+    def f(self, t, y):
+        return self.a * torch.tanh(y) + self.b * torch.sin(t)
+
+    def g(self, t, y):
+        return self.c * (1 + 0.3 * torch.cos(y))
+
+
+MIXED_METHODS = [("ito", "euler", "none"), ("ito", "milstein", "none"), ("ito", "srk", "space-time"),
+                 ("stratonovich", "midpoint", "none"), ("stratonovich", "heun", "none"),
+                 ("stratonovich", "euler_heun", "none"), ("stratonovich", "reversible_heun", "none"),
+                 ("stratonovich", "milstein", "none"), ("stratonovich", "log_ode", "davie")]
+
+
+@st.composite
+def _mixed_case(draw, tier):
+    k = draw(st.integers(0, len(MIXED_METHODS) - 1))
+    return {"kind": "mixed", "which": k, "d": draw(st.integers(1, 3)), "batch": draw(st.integers(1, 3)),
+            "dt": draw(st.sampled_from([0.1, 0.125, 0.3])), "n": draw(st.integers(3, 12)),
+            "cuts": draw(st.lists(st.integers(0, 10 ** 6), min_size=1, max_size=3)),
+            "seed": draw(st.integers(0, 2 ** 31 - 1)), "entropy": draw(st.integers(0, 2 ** 31 - 2))}
+
+
 def strategy(tier):
-    return _case(tier)
+    return st.one_of(_case(tier), _case(tier), _case(tier), _case(tier), _mixed_case(tier))
 
 
 def enumerate_cases(tier):
@@ -50,10 +84,66 @@ def enumerate_cases(tier):
                "cuts": [rnd.randrange(10 ** 6), n - 1, rnd.randrange(10 ** 6)], "extra_out": [0.45],
                "entropy": rnd.randrange(2 ** 31 - 2), "cache_size": rnd.choice([45, 1, None]),
                "extra_as_list": rnd.random() < 0.4, "chain_via_adjoint": rnd.random() < 0.3}
+    import os
+    import random
+    seed = int(os.environ.get("VERIF_SEED", "1") or 1)
+    for k in range(len(MIXED_METHODS)):
+        rnd = random.Random(seed * 7019 + k)
+        yield {"kind": "mixed", "which": k, "d": 2, "batch": 2, "dt": rnd.choice([0.1, 0.3]), "n": rnd.randint(4, 8),
+               "cuts": [rnd.randrange(10 ** 6), rnd.randrange(10 ** 6)], "seed": rnd.randrange(2 ** 31),
+               "entropy": rnd.randrange(2 ** 31 - 2)}
+
+
+def _run_mixed(case):
+    import torchsde
+    sde_type, method, levy = MIXED_METHODS[case["which"]]
+    sde = MixedSDE(sde_type, case["d"], case["seed"])
+    g = torch.Generator().manual_seed(case["seed"] + 1)
+    y0 = torch.randn(case["batch"], case["d"], generator=g, dtype=torch.float32)
+    dt = case["dt"]
+    grid = solve.fixed_grid(0.0, case["n"] * dt, dt, torch.float32)
+    if len(grid) < 3:
+        return Result(labels=["kind=mixed", "too_few_steps"])
+    cut_idx = sorted({1 + c % (len(grid) - 2) for c in case["cuts"]})
+    bounds = [0] + cut_idx + [len(grid) - 1]
+    ts_all = torch.stack([grid[i] for i in bounds])
+
+    def mk():
+        return torchsde.BrownianInterval(t0=float(grid[0]), t1=float(grid[-1]), size=(case["batch"], case["d"]),
+                                         dtype=torch.float32, entropy=case["entropy"], levy_area_approximation=levy)
+
+    sig = {"method": method, "noise_type": "diagonal", "dtype": "float32 state / float64 coefficients"}
+    with torch.no_grad():
+        ys_one, extra_one = torchsde.sdeint(sde, y0, ts_all, bm=mk(), method=method, dt=dt, extra=True)
+        bm = mk()
+        y, extra, got = y0, None, [y0]
+        for a, b in zip(bounds[:-1], bounds[1:]):
+            kw = {} if extra is None else {"extra_solver_state": extra}
+            ys_c, extra = torchsde.sdeint(sde, y, torch.stack([grid[a], grid[b]]), bm=bm, method=method, dt=dt,
+                                          extra=True, **kw)
+            y = ys_c[-1]
+            got.append(y)
+    checks = 0
+    for i in range(1, len(bounds)):
+        checks += 1
+        if ys_one[i].dtype != got[i].dtype or not torch.equal(ys_one[i], got[i]):
+            d_ = float((ys_one[i].double() - got[i].double()).abs().max())
+            return Result(nontrivial=True, checks=checks, fail=Fail(
+                "chunked_state_differs", f"mixed precision (float32 state, float64 coefficients), {sde_type}/{method}: state "
+                f"at t={float(grid[bounds[i]])} differs between one-shot ({ys_one[i].dtype}) and {len(bounds) - 1}-chunk "
+                f"({got[i].dtype}) integration: max diff {d_:.3e}", sig))
+    checks += 1
+    if len(extra_one) != len(extra) or not all(torch.equal(p_, q_) for p_, q_ in zip(extra_one, extra)):
+        return Result(nontrivial=True, checks=checks, fail=Fail(
+            "chunked_extra_state_differs", f"mixed precision, {sde_type}/{method}: final extra solver state differs", sig))
+    return Result(nontrivial=len(bounds) >= 3, labels=["kind=mixed", f"{sde_type}/diagonal/{method}", f"chunks={len(bounds) - 1}"],
+                  checks=checks)
 
 
 def run_case(case):
     import torchsde
+    if case.get("kind") == "mixed":
+        return _run_mixed(case)
     spec, combo, tm = case["spec"], case["combo"], case["time"]
     dtype = getattr(torch, spec["dtype"])
     sde = sdes.build_generic(spec)
@@ -79,11 +169,14 @@ def run_case(case):
                             cache_size=case["cache_size"])
 
     checks = 0
+    # one options dict object for the one-shot solve and for every chunk (a caller's dict is an input, not solver state)
+    shared_opts = dict(combo["options"]) or None
+    opts_before = dict(shared_opts) if shared_opts else None
     with torch.no_grad():
-        (ys_one, extra_one), rec_one = solve.run(torchsde, sde, y0, ts_all, combo, dt, bm=mk_bm(), record=True,
-                                                 extra=True)
+        rec_one = brownian_tools.make_recording(mk_bm())
+        ys_one, extra_one = torchsde.sdeint(sde, y0, ts_all, bm=rec_one, method=combo["method"], dt=dt,
+                                            options=shared_opts, extra=True)
         bm = mk_bm()
-        from .. import brownian_tools
         rec = brownian_tools.make_recording(bm)
         y = y0
         extra = None
@@ -96,7 +189,7 @@ def run_case(case):
             kw = {} if extra is None else {"extra_solver_state": extra}
             api = torchsde.sdeint_adjoint if case.get("chain_via_adjoint") else torchsde.sdeint
             ys_c, extra = api(sde, y, ts_chunk, bm=rec, method=combo["method"], dt=dt,
-                              options=dict(combo["options"]) or None, extra=True, **kw)
+                              options=shared_opts, extra=True, **kw)
             for t, v in zip(ts_chunk, ys_c):
                 pieces[float(t)] = v
             y = ys_c[-1]
@@ -104,6 +197,9 @@ def run_case(case):
     def fail(clause, msg):
         return Result(nontrivial=True, checks=checks, fail=Fail(clause, msg, sig))
 
+    checks += 1
+    if (dict(shared_opts) if shared_opts else None) != opts_before:
+        return fail("options_dict_modified", f"the caller's options dict {opts_before} came back as {shared_opts}")
     for i, t in enumerate(all_t):
         checks += 1
         if not torch.equal(ys_one[i], pieces[t]):
